@@ -82,8 +82,16 @@ def prepare(ctx, u, bins, with_go=True):
     (d / "A.view").write_text("\n".join(tlo_lib.mig_view_lines(A)) + "\n")
     (d / "B.view").write_text("\n".join(tlo_lib.mig_view_lines(B)) + "\n")
     u.views = (d / "A.view", d / "B.view")
-    if not with_go:
+    if with_go:
+        prepare_go(ctx, u, bins)
+    return u
+
+
+def prepare_go(ctx, u, bins):
+    """stage 2: generate and build both packages (the migration itself ran in stage 1)"""
+    if u.A is None or u.B is None:
         return u
+    of, files = u.orig_files, u.mig_files
     opts = [f"--tl2WhiteList={u.wl}"]
     go = schema_ir.GenPkg(ctx.scratch, u.name + "_o", bins["tl2gen"], of, opts, driver_files=DRIVER)
     gm = schema_ir.GenPkg(ctx.scratch, u.name + "_m", bins["tl2gen"], files, opts, driver_files=DRIVER)
@@ -172,8 +180,8 @@ def run(ctx):
             list(ex.map(lambda u: prepare(ctx, u, bins, with_go=False), rand_units))
             chosen = [u for u in rand_units if u.A is not None and u.B is not None][:n_go]
             go_units = [u for u in units if not (quick and u.name in heavy)] + chosen
-            list(ex.map(lambda u: prepare(ctx, u, bins, with_go=False), [u for u in units if u not in go_units]))
-            list(ex.map(lambda u: prepare(ctx, u, bins, with_go=True), go_units))
+            list(ex.map(lambda u: prepare(ctx, u, bins, with_go=False), units))
+            list(ex.map(lambda u: prepare_go(ctx, u, bins), go_units))
         units += rand_units
     mark("prepare")
 
